@@ -20,6 +20,7 @@ import (
 	"regexp"
 	"strconv"
 	"strings"
+	"unicode/utf8"
 
 	"github.com/google/gce-tcb-verifier/gcetcbendorsement"
 	"github.com/google/gce-tcb-verifier/gcetcbendorsement/parsepath"
@@ -198,7 +199,6 @@ func c19LastKeyCls(p protopath.Path) string {
 	return ""
 }
 
-
 // ---- direct oracle for accepted paths (independent of the model) -----------------------------------------
 
 // token kinds as one character each: ident 0, intlit 1, strlit 2, dot 3, '(' 4, ')' 5, '[' 6, ']' 7, illegal 8, eof 9
@@ -296,6 +296,18 @@ func c19Scan(c *Ctx, path string) (string, []parsepath.VerifToken, bool) {
 		parts[i] = fmt.Sprintf("%d:%d:%d:%s", t.Kind, t.Pos, t.End, text)
 		if t.Kind != 9 && (t.End <= prev || t.End > len(path)) {
 			progress = false
+		}
+		// an identifier / integer token carries its source text; a quoted literal without escape sequences
+		// carries exactly the bytes between its quotes (independent of the scanner under test)
+		if t.Pos >= 0 && t.End <= len(path) && t.Pos < t.End {
+			src := path[t.Pos:t.End]
+			if (t.Kind == 0 || t.Kind == 1) && t.Text != src {
+				c.Find("c19/scan/token-text/"+fmt.Sprint(t.Kind), "an identifier or integer token does not carry the text that was written", "path="+hx([]byte(path))+" token="+hx([]byte(t.Text)))
+			}
+			if t.Kind == 2 && len(src) >= 2 && !strings.Contains(src, "\\") && (src[0] == '"' || src[0] == '\'') && src[len(src)-1] == src[0] &&
+				utf8.ValidString(src) && t.Text != src[1:len(src)-1] {
+				c.Find("c19/scan/token-text/string", "a quoted key without escape sequences does not carry the bytes between its quotes", "path="+hx([]byte(path))+" token="+hx([]byte(t.Text)))
+			}
 		}
 		if t.Kind == 9 && (t.End != prev || t.End < len(path)) {
 			progress = false
